@@ -55,7 +55,7 @@ def budget(tier):
 
 
 def wall_cap(tier):
-    return 300 if tier == "quick" else 1500
+    return 300 if tier == "quick" else 600
 
 
 # -- generation ---------------------------------------------------------------------------------
